@@ -132,6 +132,15 @@ var c13Entry = &zz.ObjectEntry{
 			}
 		}
 		serve("handle", "ServeHTTP")
+		zz.Stage(obs, "handle", "httpStat durations", func() {
+			for _, d := range zz.StatDurations {
+				mt := &httpstat.Metric{StatusCode: 200, Duration: d, ReqSize: 10, RespSize: 10}
+				m.httpStat.Stat(mt)
+				m.topN.Stat("/a").Stat(mt)
+			}
+			m.httpStat.Status()
+			m.topN.Status()
+		})
 		// the update path: the same spec reloaded into the running mux (HTTPServer.Inherit -> runtime reload)
 		if obs.Panic == "" {
 			if zz.Stage(obs, "other", "gen2.mux.reload", func() { m.reload(super, c13Mapper{}) }) {
